@@ -82,6 +82,23 @@ CLAIMED = {
             "trusted: TLC, abstraction.py, FA.tla + the tagged reference constructions of JFA.tla; operands of one "
             "call share their epsilon symbol",
             "TLA+ heap-level API model (TLC exhaustive) + spec behaviours replayed into code + TLC trace validation"),
+    "C07": ("5/C07",
+            "TLC checks Cyk.tla (the table filled cell by cell as the code does) over every CNF grammar with <= 3 (4) "
+            "rules on {S,A,B}/{a,b} x every word <= 3: each filled cell equals the derivability fix-point, the verdict "
+            "equals derivability.  The real cfg_accepts_word (arbitrary grammars incl. epsilon/unit/cyclic/useless "
+            "rules; every word <= n) and every cell of the real cfg_cyk_matrix are judged by TLC against the fix-point "
+            "semantics of CFG.tla.",
+            "trusted: TLC, abstraction.py, CFG.tla; bounded: <= 4 variables, words <= 4",
+            "TLA+ model (TLC exhaustive) + TLC trace validation of recorded calls"),
+    "C08": ("5/C08",
+            "TLC checks Chomsky.tla (unit-rule elimination under every order in which the variable set is visited) "
+            "over all sets of <= 4 (5) unit/terminal/binary rules on 3 variables: no unit rule left, rule set = unit "
+            "closure whatever the order, language of every variable preserved (words <= 3).  Every phase of the real "
+            "pipeline, cfg_to_chomsky and cfg_apply_chomsky are judged by TLC per call: valid grammar, the phase's "
+            "postcondition, language equal on all words <= 3 (4) by the fix-point on both sides, number of introduced "
+            "variables, CNF at the end, input unchanged; grammars with 23-27 variables included.",
+            "trusted: TLC, abstraction.py, CFG.tla; CFG equivalence undecidable - bounded word length",
+            "TLA+ model with nondeterministic visiting order (TLC exhaustive) + TLC trace validation"),
 }
 
 REASON_TODO = "check not built yet (work in progress; see DESIGN.md section 5)"
